@@ -272,6 +272,16 @@ func runC06(t *testing.T, tape *sim.Tape, tier string) *Outcome {
 		want = append(want, v)
 		data = append(data, v.Encode()...)
 	}
+	if tape.Draw(2048, "widearray") == 2047 { // 0 stays the cheap choice
+		// a complete array of about 2^16 (and more) elements: element counts are not trusted, but real elements must all be there
+		n := []int{65535, 65536, 65537, 70000, 131073, 196613}[tape.Draw(6, "width")]
+		v := resp.Value{K: resp.Array, A: make([]resp.Value, n)}
+		for i := range v.A {
+			v.A[i] = resp.In(int64(i % 7))
+		}
+		data = append(data, v.Encode()...)
+		o.stat("wide_arrays", 1)
+	}
 	bad, endErr, desc := applyStreamFaults(tape, data, o)
 	if declaresHuge(bad) {
 		// boundary lengths are judged by process survival, one subprocess each, a few per run
@@ -311,6 +321,7 @@ func runC06(t *testing.T, tape *sim.Tape, tier string) *Outcome {
 			r.piggy = tape.Draw(2, "piggy") == 1
 		}
 		o.Evals++
+		sim.Progress.Add(1)
 		if sig, det := drainParser(r, o, desc); sig != "" {
 			o.violate(sig, "%s; input %q; faults %s; delivery %d", det, clip(bad, 160), desc, j)
 		}
